@@ -143,7 +143,12 @@ func c04Ops(thorough bool) []c04Op {
 		ops = append(ops, tx("tx n->n 2 (self transfer, new account)", "l1", c04T1, metadata.Metadata{}, nil, false, p("n", "n", "X", 2)))
 	}
 	ops = append(ops, tx("tx world->a X 1, world->a Y 1 (two assets)", "l1", c04T1, metadata.Metadata{}, nil, false, p("world", "a", "X", 1), p("world", "a", "Y/2", 1)))
-	if false {
+	if thorough {
+		ops = append(ops,
+			tx("tx @t0 (back-dated) writing metadata on z", "l1", c04T0, metadata.Metadata{}, map[string]metadata.Metadata{"z": {"only": "old", "extra": "1"}}, false, p("world", "a", "X", 1)),
+			c04Op{Name: "set metadata account z", Ledger: "l1", Make: func(st *c04State) []*ledger.Log {
+				return []*ledger.Log{ledger.NewSetMetadataOnAccountLog(ledger.Time{}, "z", metadata.Metadata{"k2": "v2"})}
+			}})
 	}
 	return ops
 }
@@ -190,6 +195,60 @@ func (st *c04State) apply(op c04Op) (*c04State, string) {
 }
 
 type moveKey struct{ acc, asset string }
+
+// accountAt: what the log says about an account as of pit (nil = now). Entries are dated by their log entry, except (byTS)
+// metadata a script writes on an account outside its postings, which the schema dates with the transaction's timestamp.
+func accountAt(logs []*ledger.ChainedLog, a string, pit *ledger.Time, byTS bool) (bool, metadata.Metadata) {
+	upTo := pitOrMax(pit)
+	vis := false
+	md := metadata.Metadata{}
+	merge := func(m metadata.Metadata) {
+		vis = true
+		for k, v := range m {
+			md[k] = v
+		}
+	}
+	for _, l := range logs {
+		in := !l.Date.Time.After(upTo)
+		switch p := l.Data.(type) {
+		case ledger.NewTransactionLogPayload:
+			posted := false
+			for _, ps := range p.Transaction.Postings {
+				if ps.Source == a || ps.Destination == a {
+					posted = true
+				}
+			}
+			am, has := p.AccountMetadata[a]
+			if posted && in {
+				merge(am)
+			}
+			if !posted && has {
+				when := l.Date.Time
+				if byTS {
+					when = p.Transaction.Timestamp.Time
+				}
+				if !when.After(upTo) {
+					merge(am)
+				}
+			}
+		case ledger.RevertedTransactionLogPayload:
+			for _, ps := range p.RevertTransaction.Postings {
+				if (ps.Source == a || ps.Destination == a) && in {
+					vis = true
+				}
+			}
+		case ledger.SetMetadataLogPayload:
+			if p.TargetType == ledger.MetaTargetTypeAccount && fmt.Sprint(p.TargetID) == a && in {
+				merge(p.Metadata)
+			}
+		case ledger.DeleteMetadataLogPayload:
+			if p.TargetType == ledger.MetaTargetTypeAccount && fmt.Sprint(p.TargetID) == a && in {
+				delete(md, p.Key)
+			}
+		}
+	}
+	return vis, md
+}
 
 // txAt: what the log says about transaction id as of pit (nil = now): visible from its timestamp on, reverted from the
 // reverting transaction's timestamp on, metadata = creation metadata plus the metadata entries dated up to pit.
@@ -549,6 +608,82 @@ func (st *c04State) judge(withPIT bool) (string, string) {
 						return k, w
 					}
 				}
+				// account listing and count as of the instant: every account that exists at the instant, exactly once, in
+				// address order, with the metadata written up to the instant. Account metadata written by a script on an
+				// account that is not in the postings is dated by the schema with the transaction's timestamp, everything else
+				// with the log entry's date: both datings are accepted for those entries (accountAt, byTS).
+				{
+					type accState struct {
+						vis bool
+						md  metadata.Metadata
+					}
+					want := map[bool]map[string]accState{false: {}, true: {}}
+					for _, byTS := range []bool{false, true} {
+						for a := range accs {
+							vis, md := accountAt(logs, a, pit, byTS)
+							want[byTS][a] = accState{vis, md}
+						}
+					}
+					listing := func(byTS bool) []string {
+						var out []string
+						for a, st := range want[byTS] {
+							if st.vis {
+								out = append(out, a)
+							}
+						}
+						sort.Strings(out)
+						return out
+					}
+					opts := ledgerstore.NewPaginatedQueryOptions(ledgerstore.PITFilterWithVolumes{PITFilter: ledgerstore.PITFilter{PIT: pit}}).WithPageSize(100)
+					cur, err := s.GetAccountsWithVolumes(ctx, ledgerstore.NewGetAccountsQuery(opts))
+					if err != nil {
+						return "read-error", fmt.Sprintf("GetAccountsWithVolumes at %s: %v", pitStr(pit), err)
+					}
+					var gotAccs []string
+					for _, a := range cur.Data {
+						gotAccs = append(gotAccs, a.Address)
+					}
+					clock := -1
+					for i, byTS := range []bool{false, true} {
+						if fmt.Sprint(gotAccs) == fmt.Sprint(listing(byTS)) {
+							clock = i
+							break
+						}
+					}
+					if clock < 0 {
+						return "list-accounts", fmt.Sprintf("ledger %s: the account listing as of %s is %v, the log entries up to that instant define %v", ldg, pitStr(pit), gotAccs, listing(false))
+					}
+					okMeta := func(a string, got metadata.Metadata) (metadata.Metadata, bool) {
+						for _, byTS := range []bool{false, true} {
+							if st := want[byTS][a]; st.vis && metaEqual(got, st.md) {
+								return nil, true
+							}
+						}
+						return want[false][a].md, false
+					}
+					for _, a := range cur.Data {
+						if w, ok := okMeta(a.Address, a.Metadata); !ok {
+							return "list-accounts-metadata", fmt.Sprintf("ledger %s: the account listing as of %s gives %s metadata %v, replaying the log entries up to that instant gives %v", ldg, pitStr(pit), a.Address, a.Metadata, w)
+						}
+					}
+					n, err := s.CountAccounts(ctx, ledgerstore.NewGetAccountsQuery(opts))
+					if err != nil || (n != len(listing(false)) && n != len(listing(true))) {
+						return "count-accounts", fmt.Sprintf("ledger %s: CountAccounts as of %s = %d (%v), the log entries up to that instant define %d accounts %v", ldg, pitStr(pit), n, err, len(listing(false)), listing(false))
+					}
+					if pit != nil {
+						for _, a := range gotAccs {
+							q := ledgerstore.NewGetAccountQuery(a)
+							q.PIT = pit
+							got, err := s.GetAccountWithVolumes(ctx, q)
+							if err != nil {
+								return "read-error", "GetAccountWithVolumes: " + err.Error()
+							}
+							if w, ok := okMeta(a, got.Metadata); !ok {
+								return "pit-account-metadata", fmt.Sprintf("ledger %s: account %s as of %s has metadata %v, replaying the log entries up to that instant gives %v", ldg, a, pitStr(pit), got.Metadata, w)
+							}
+						}
+					}
+				}
 				// transactions as of the instant: visible from their timestamp on, reverted once the reverting transaction's
 				// timestamp is reached, metadata as of the log entries dated up to the instant; expanded volumes are those
 				// after the transaction's last move on each account (by insertion, and by effective date)
@@ -761,7 +896,9 @@ func c04Structural(rep *evid.Reporter) int {
 		}
 	}
 	calls = append(calls,
-		call{"GetLogs", func(s *ledgerstore.Store) { s.GetLogs(ctx, ledgerstore.NewGetLogsQuery(ledgerstore.NewPaginatedQueryOptions[any](nil))) }},
+		call{"GetLogs", func(s *ledgerstore.Store) {
+			s.GetLogs(ctx, ledgerstore.NewGetLogsQuery(ledgerstore.NewPaginatedQueryOptions[any](nil)))
+		}},
 		call{"GetLastLog", func(s *ledgerstore.Store) { s.GetLastLog(ctx) }},
 		call{"ReadLogWithIdempotencyKey", func(s *ledgerstore.Store) { s.ReadLogWithIdempotencyKey(ctx, "k") }},
 		call{"GetBalance", func(s *ledgerstore.Store) { s.GetBalance(ctx, "a", "X") }},
@@ -811,56 +948,74 @@ func c04() int {
 		return rep.Finish(evid.Coverage{"explanation": "schema not interpretable", "evaluations": 1, "distinct_nontrivial": 0})
 	}
 	ops := c04Ops(rep.Thorough())
-	depth, pitDepth := 4, 3
-	if rep.Thorough() {
-		depth, pitDepth = 5, 4
-	}
 	var states, transitions, unsupported int64
 	var samples evid.Samples
 	samples.N = 4
-	frontier := []*c04State{root}
 	kinds := evid.NewHistogram()
-	for d := 1; d <= depth; d++ {
-		var mu sync.Mutex
-		var next []*c04State
-		evid.ParallelFor(len(frontier), workers(), func(w, i int) {
-			st := frontier[i]
-			for _, op := range ops {
-				n, errText := st.apply(op)
-				if n == nil && errText == "" {
-					continue
-				}
-				atomic.AddInt64(&transitions, 1)
-				replay := map[string]interface{}{"engine": "pgmini", "history": append(append([]string{}, st.path...), op.Name)}
-				if errText != "" {
-					if strings.Contains(errText, "pgmini: unsupported") {
-						atomic.AddInt64(&unsupported, 1)
-						rep.Undecide("interpreter: " + errText)
+	// explore: breadth-first over histories; the states of the last level are judged and dropped at once (memory stays
+	// bounded by the level before)
+	explore := func(ops []c04Op, depth, pitDepth int) {
+		frontier := []*c04State{root}
+		for d := 1; d <= depth; d++ {
+			var mu sync.Mutex
+			var next []*c04State
+			evid.ParallelFor(len(frontier), workers(), func(w, i int) {
+				st := frontier[i]
+				for _, op := range ops {
+					n, errText := st.apply(op)
+					if n == nil && errText == "" {
 						continue
 					}
-					rep.Violation("insert-error:"+op.Name, "InsertLogs failed: "+errText, replay)
-					continue
-				}
-				atomic.AddInt64(&states, 1)
-				kind, why := n.judge(len(n.path) <= pitDepth)
-				if why != "" {
-					if strings.Contains(why, "pgmini: unsupported") {
-						atomic.AddInt64(&unsupported, 1)
-						rep.Undecide("interpreter: " + why)
-					} else if !n.bad[kind] {
-						n.bad[kind] = true
-						kinds.Add(kind)
-						rep.Violation(kind+":"+c04Culprit(n.path), why+" [history: "+strings.Join(n.path, " ; ")+"]", replay)
+					atomic.AddInt64(&transitions, 1)
+					replay := map[string]interface{}{"engine": "pgmini", "history": append(append([]string{}, st.path...), op.Name)}
+					if errText != "" {
+						if strings.Contains(errText, "pgmini: unsupported") {
+							atomic.AddInt64(&unsupported, 1)
+							rep.Undecide("interpreter: " + errText)
+							continue
+						}
+						rep.Violation("insert-error:"+op.Name, "InsertLogs failed: "+errText, replay)
+						continue
+					}
+					atomic.AddInt64(&states, 1)
+					kind, why := n.judge(len(n.path) <= pitDepth)
+					if why != "" {
+						if strings.Contains(why, "pgmini: unsupported") {
+							atomic.AddInt64(&unsupported, 1)
+							rep.Undecide("interpreter: " + why)
+						} else if !n.bad[kind] {
+							n.bad[kind] = true
+							kinds.Add(kind)
+							rep.Violation(kind+":"+c04Culprit(n.path), why+" [history: "+strings.Join(n.path, " ; ")+"]", replay)
+						}
+					}
+					samples.Offer(func() interface{} { return n.path })
+					if d < depth {
+						mu.Lock()
+						next = append(next, n)
+						mu.Unlock()
 					}
 				}
-				samples.Offer(func() interface{} { return n.path })
-				mu.Lock()
-				next = append(next, n)
-				mu.Unlock()
-			}
-		})
-		frontier = next
+			})
+			frontier = next
+		}
 	}
+	depth, pitDepth := 4, 3
+	scope := fmt.Sprintf("every log history of length <= %d over %d log shapes", depth, len(ops))
+	explore(ops, depth, pitDepth)
+	if rep.Thorough() {
+		// a second, deeper pass over the shapes that interact (dates before / after the insertion clock, reverts, metadata
+		// set and delete on both target kinds, two assets, self transfer, the second ledger)
+		var core []c04Op
+		for _, op := range ops {
+			if c04Core[op.Name] {
+				core = append(core, op)
+			}
+		}
+		explore(core, 5, 4)
+		scope += fmt.Sprintf(", plus every history of length <= 5 over %d of them", len(core))
+	}
+	nPatterns, nFilterReads := c04Filters(rep, root, rep.Thorough())
 	nsql := c04Structural(rep)
 	cov := evid.Coverage{
 		"states":                        int(states),
@@ -868,16 +1023,25 @@ func c04() int {
 		"traces_validated_against_impl": int(transitions),
 		"samples":                       samples.Got,
 		"exhaustive":                    true,
-		"rule":                          fmt.Sprintf("breadth-first exploration of every log history of length <= %d over %d log shapes on two ledgers sharing one bucket (point-in-time reads at every insertion midpoint and at 4 effective instants up to depth %d, current-state reads at every depth); each log is chained with the repository's constructors and inserted through the real ledgerstore.Store.InsertLogs into pgmini, an interpreter that executes the working tree's 0-init-schema.sql (PL/pgSQL triggers) and the SQL the Go store emits; in every state the moves / transactions tables and the Go read methods are compared with an independent fold of that ledger's log; states = histories reached, transitions = InsertLogs executed; plus %d read statements checked for a ledger predicate", depth, len(ops), pitDepth, nsql),
+		"rule":                          fmt.Sprintf("breadth-first exploration of %s on two ledgers sharing one bucket (point-in-time reads at every insertion midpoint and at 4 effective instants up to depth %d, current-state reads at every depth); each log is chained with the repository's constructors and inserted through the real ledgerstore.Store.InsertLogs into pgmini, an interpreter that executes the working tree's 0-init-schema.sql (PL/pgSQL triggers) and the SQL the Go store emits; in every state the moves / transactions tables and the Go read methods are compared with an independent fold of that ledger's log; states = histories reached, transitions = InsertLogs executed; plus %d address patterns (every sequence of 1..4 segments over a small alphabet incl. the wildcard) through every filtered read (%d reads) on a ledger with accounts of 1..4 segments; plus %d read statements checked for a ledger predicate", scope, pitDepth, nPatterns, nFilterReads, nsql),
 		"validated_against_postgresql":  0,
 		"interpreter_unsupported_hits":  int(unsupported),
 		"violation_kinds":               kinds.M,
+		"address_patterns":              nPatterns,
+		"filtered_reads":                nFilterReads,
 	}
 	rep.Assume = []string{"pgmini's reading of PostgreSQL semantics (SPEC.md in /verif/xverif/lib/pgmini; no PostgreSQL server exists in the sandbox to validate it against)", "account volumes / effective volumes and aggregated balances are executed with and without a point in time (by insertion date resp. effective date); the point-in-time variants of the transaction listings and the volumes of listed accounts are not compared (only their ledger predicate is checked)"}
 	return rep.Finish(cov)
 }
 
 // c04Culprit: fingerprint = the kinds of the operations in the history (not their order beyond the last one)
+var c04Core = map[string]bool{
+	"tx world->a 5 @t1": true, "tx a->b 3 @t1": true, "tx a->a 2 @t1 (self transfer)": true, "tx world->a 5 @t0 (back-dated)": true,
+	"tx world->a 5 @t2 (future)": true, "tx with metadata+reference+account metadata": true, "revert last unreverted tx": true,
+	"set metadata account a": true, "set metadata tx 0": true, "delete metadata account a key k": true, "delete metadata tx 0 key m": true,
+	"L2: tx world->a 1 @t1": true, "tx world->a X 1, world->a Y 1 (two assets)": true,
+}
+
 func c04Culprit(path []string) string {
 	if len(path) == 0 {
 		return ""
@@ -885,14 +1049,12 @@ func c04Culprit(path []string) string {
 	return path[len(path)-1]
 }
 
-
 func pitStr(t *ledger.Time) string {
 	if t == nil {
 		return "now"
 	}
 	return t.Time.UTC().Format(time.RFC3339Nano)
 }
-
 
 func pitOrMax(t *ledger.Time) time.Time {
 	if t == nil {
